@@ -2,6 +2,7 @@ package stun
 
 import (
 	"errors"
+	"sync"
 	"time"
 )
 
@@ -187,9 +188,18 @@ func vh_C10_do() {
 			vxReach("other-then-response")
 		}
 	})
+	// Do takes its wait handler from the pool: hand it a known one, so that the callback can observe whether
+	// the waiter could already be released while the callback is still running ("Do returns once that
+	// invocation has finished": released = processed set and the condition's lock free)
+	wh := &callbackWaitHandler{cond: sync.NewCond(new(sync.Mutex))}
+	callbackWaitHandlerPool.Put(wh)
 	err := env.c.Do(vxRequest(id, 40), func(e Event) {
 		calls++
 		got = e
+		mu, isMutex := wh.cond.L.(*sync.Mutex)
+		if isMutex {
+			vxAssert(!(wh.processed && !vxMutexHeld(mu)), "the waiting Do is not released before its callback has finished")
+		}
 	})
 	vxAssert(err == nil, "Do of a request on an open client succeeds")
 	vxAssert(calls == 1, "Do returns after its handler has run exactly once")
